@@ -54,15 +54,26 @@ findings:
 tree, and run the checks on the in-memory overlay; any report is a false alarm by construction.
 `tools/rename_probe.py` renames every local of 67 functions; `tools/refactor_probe.py` re-emits the module with
 `ast.unparse` (formatting, comments and line numbers change), inverts every `if c: A else: B` to `if not c: B else: A`,
-swaps the sides of `==`/`!=`, removes the `else` after a body that always leaves, and adds such an `else`.
+swaps the sides of `==`/`!=`, removes the `else` after a body that always leaves, adds such an `else`, inserts statements
+without effect at the start of the function and of every loop body, and extracts the value of `return f(...)` into a local.
 The first runs produced reports for about 40 % of the functions (rules that matched a local's name, the polarity of one
 particular `if`, the side a constant stands on, or counted the final `return` inside an added `else` as an early exit).
 These were corrected at the root, in the program model rather than rule by rule: every module is brought into a canonical
-form before any rule reads it (`sa/model.py`): locals are mapped back to their reference names (`baselines/locals.json`),
-a negated test with an `else` is flipped, a constant-like side of a symmetric comparison stands on the right, and the
-`else` after a body that ends in return / continue / break / raise is dissolved into the enclosing block.  Rules that compare
-two non-constant sides (C17 SPLIT) do so modulo their order.  After these changes both probes are silent on all 67
-functions in all modes, and all self-test variants, seeded changes and reverted fixes are still reported.
+form before any rule reads it (`sa/model.py`):
+
+* locals are mapped back to their reference names (`baselines/locals.json`);
+* when one branch of an `if`/`else` always leaves (return / continue / break / raise, also through a nested `if`/`else`
+  whose branches both leave), the leaving branch is the body - the test negated if necessary - and the other branch follows
+  the conditional; when both leave, the `else` is dissolved and the error branch stands first, otherwise the written order is
+  kept; an `elif` after a leaving body is dissolved when the chain has no final `else` (exhaustive chains keep their shape);
+* a negated test that still has an `else` is flipped;
+* a constant-like side of a symmetric comparison stands on the right; rules that compare two non-constant sides
+  (C17 SPLIT) do so modulo their order.
+
+`baselines/skips.json` is read from the unchanged tree under the same canonical form.  What is *not* canonicalised: the
+inversion of an `if`/`else` whose branches both leave and neither (or both) report an error, and the inversion of a guard
+clause together with the rest of its block; renaming a function the rules are anchored in ends the run as analysis-broken
+(exit 2), not as a violation.  The last probe runs are recorded at the end of this section.
 """
 
 OBSERVED = """
